@@ -76,6 +76,7 @@ func runC03(a *A) {
 	a.Rule("flow/null-choke-point", 5, func() { a.ruleNullChokePoint() })
 	a.Rule("aggstate/group-instances-complete", 1, func() { a.ruleGroupInstancesComplete() })
 	a.Rule("aggstate/reset", 2, func() { a.ruleAggregatorReset() })
+	a.Rule("flow/all-aggregates-fed", 1, func() { a.ruleAllAggregatesFed() })
 	a.Rule("shape/aggregate-name-case", 1, func() { a.ruleAggregateNameCase() })
 	a.Rule("golife/captured-loop-variable", 1, func() { a.ruleCapturedLoopVariable(nil) })
 	a.Rule("tables/aggregate-registry", 17, func() { a.ruleAggregateRegistry() })
@@ -501,4 +502,65 @@ func (a *A) ruleGroupInstancesComplete() {
 	})
 	a.Check(ok && nFeed > 0, construct, loopHead.Instrs[0].Pos(), fmt.Sprintf("every group gets an instance of every aggregate before any of the %d feeding sites runs", nFeed),
 		"an accumulator can be fed on a path that does not pass the loop creating the group's instances")
+}
+
+// ruleAllAggregatesFed: "the aggregates of a result equal the aggregates of exactly the batch's rows"
+// needs every aggregate of the row's group to see the row. In GroupAggregator.Add the loop that feeds
+// the group's aggregators (the one containing the AggregatorFunction.Add calls) is left only when the
+// field list is exhausted, or by returning an error (the whole Add fails and says so): a `break` on a
+// field whose expression cannot be evaluated would hide the row from every later aggregate - count(*)
+// included - while Add reports success.
+func (a *A) ruleAllAggregatesFed() int {
+	add := a.Method("aggregator", "GroupAggregator", "Add")
+	n := 0
+	for _, h := range append([]*ssa.Function{add}, a.helpersOf(add)...) {
+		for _, l := range rangeLoops(h) {
+			feeds := false
+			for b := range l.Blocks {
+				for _, in := range b.Instrs {
+					if cc := callCommon(in); cc != nil && cc.IsInvoke() && cc.Method.Name() == "Add" {
+						// an aggregator interface of the module (AggregatorFunction or the legacy one): Add, New, Result
+						if it, ok := cc.Value.Type().Underlying().(*types.Interface); ok {
+							has := map[string]bool{}
+							for i := 0; i < it.NumMethods(); i++ {
+								has[it.Method(i).Name()] = true
+							}
+							if has["New"] && has["Result"] && a.inModule(cc.Method.Pkg()) {
+								feeds = true
+							}
+						}
+					}
+				}
+			}
+			if !feeds {
+				continue
+			}
+			n++
+			bad := loopEarlyExit(l, func(exit *ssa.BasicBlock) bool {
+				// leaving by `return err` with a non-nil error
+				for hops := 0; hops < 3 && exit != nil; hops++ {
+					switch last := exit.Instrs[len(exit.Instrs)-1].(type) {
+					case *ssa.Return:
+						return returnsNonNilError(last)
+					case *ssa.Jump:
+						exit = exit.Succs[0]
+					default:
+						return false
+					}
+				}
+				return false
+			})
+			pos := l.Header.Instrs[0].Pos()
+			if bad != nil {
+				pos = bad.Pos()
+			}
+			a.Check(bad == nil, fname(h)+"#all-aggregates-fed", pos,
+				"the loop that feeds the group's aggregates is left only when every aggregate has seen the row (or Add fails with an error)",
+				"the loop that feeds the group's aggregates can be left early at "+a.pos(pos)+" while Add still reports success: the aggregates after that point (count(*) included) never see the row, so the result is not the aggregate of the batch's rows")
+		}
+	}
+	if n == 0 {
+		a.anchorFail("no loop feeding AggregatorFunction.Add found in GroupAggregator.Add")
+	}
+	return n
 }
